@@ -43,6 +43,10 @@ let slot1 = ref None
 let rhint = ref []
 let acts = ref []
 let utf8 = ref false
+let proot = ref 0
+let prestart = ref 0
+let pluts : n list list ref = ref []
+let pstates : (positive * pstate) list ref = ref []
 
 let graph_cache = ref None
 let dfa_cache = ref None
@@ -167,6 +171,40 @@ let () =
             let b x = if x then "1" else "0" in
             Buffer.add_string buf (Printf.sprintf "GB %s %s %s\n" tag
               (String.concat " " (List.map b side)) (b (gsim_ok built g r)))
+        | "PGM" ->
+            (* start of an emitted program: root restart *)
+            let r = next () in let rs = next () in
+            proot := r; prestart := rs; pluts := []; pstates := []
+        | "PL" -> pluts := List.init 256 (fun _ -> n_of_int (next ())) :: !pluts
+        | "PS" ->
+            let sid i = pos_of_int (i + 1) in
+            let osid i = if i = 0 then None else Some (sid (i - 1)) in
+            let s = next () in
+            let lp = if next () = 1 then (let k = next () in let m = next () in Some (n_of_int k, n_of_int m)) else None in
+            let su = (match next () with
+                      | 0 -> PNoSetup
+                      | 1 -> PEarly (n_of_int (next ()))
+                      | _ -> PAccept (n_of_int (next ()))) in
+            let pre = (next () = 1) in let rt = (next () = 1) in let eo = osid (next ()) in
+            let fk = (match next () with
+                      | 0 ->
+                          let n = next () in
+                          PChain (List.init n (fun _ ->
+                            let c = (match next () with
+                                     | 0 -> let k = next () in let m = next () in PLut (n_of_int k, n_of_int m)
+                                     | _ -> let nc = next () in
+                                            PCmp (List.init nc (fun _ ->
+                                              let lo = next () in let hi = next () in let ne = next () in
+                                              { c_lo = n_of_int lo; c_hi = n_of_int hi; c_ex = List.init ne (fun _ -> n_of_int (next ())) }))) in
+                            let t = next () in (c, sid t)))
+                      | _ -> PTable (List.init 256 (fun _ -> osid (next ())))) in
+            pstates := (sid s, { p_loop = lp; p_setup = su; p_fork = fk; p_prefix = pre; p_roottest = rt; p_eoi = eo }) :: !pstates
+        | "PG" ->
+            let tag = toks.(1) in
+            let g = get_graph () in
+            let sid i = pos_of_int (i + 1) in
+            let p = mk_prog (List.rev !pluts) !pstates (sid !proot) (sid !prestart) in
+            Buffer.add_string buf (Printf.sprintf "PG %s %s\n" tag (if prog_ok g p then "1" else "0"))
         | "CU" ->
             (* DFA-only UTF-8 certificates: dead_ok, utf8_ok, utf8_strict_ok *)
             let tag = toks.(1) in
@@ -181,6 +219,18 @@ let () =
             let r1 = run_ref (get_graph ()) !utf8 !acts (mode = 1) w in
             let r2 = if mode = 0 && !dstates <> [] then print_ns (run_spec (get_dfa ()) (get_rank ()) !utf8 !acts w) else "-" in
             Buffer.add_string buf (Printf.sprintf "P %s ref: %s | spec: %s\n" id (print_ns r1) r2)
+        | "PP" ->
+            (* PP id mode len bytes : the emitted program (as "ref") against the reference semantics of the graph (as "spec") *)
+            let id = toks.(1) in pos := 2;
+            let mode = next () in let len = next () in
+            let w = List.init len (fun _ -> n_of_int (next ())) in
+            let sid i = pos_of_int (i + 1) in
+            let p = mk_prog (List.rev !pluts) !pstates (sid !proot) (sid !prestart) in
+            let rec nat_of_int i = if i <= 0 then O else S (nat_of_int (i - 1)) in
+            let u8 = S (S (S (S (S (S (S (S O))))))) in
+            let r1 = run_prog u8 p (nat_of_int (List.length !gstates)) !utf8 !acts (mode = 1) w in
+            let r2 = run_ref (get_graph ()) !utf8 !acts (mode = 1) w in
+            Buffer.add_string buf (Printf.sprintf "P %s ref: %s | spec: %s\n" id (print_ns r1) (print_ns r2))
         | "T" ->
             (* T id mode len bytes : read log of every attempt of the optimised executor (U = 8) *)
             let id = toks.(1) in pos := 2;
